@@ -19,3 +19,15 @@ Example C08_config_flavours_differ :
   flags_of rpm_type_flags rpm_default_flags TConfig <> flags_of rpm_type_flags rpm_default_flags TConfigNoReplace /\
   flags_of rpm_type_flags rpm_default_flags TConfig <> flags_of rpm_type_flags rpm_default_flags TConfigMissingOK.
 Proof. split; vm_compute; discriminate. Qed.
+
+(* ---- conffiles of deb and ipk, translated from the sources on every run (Gen/ListFns.v) ---- *)
+From NfpmV Require Import Model.DebLists Proofs.ListFnsProofs Gen.ListFns.
+
+(* for every prepared content list: the conffiles member the SOURCE writes - one NormalizeAbsoluteFilePath(destination)
+   per entry of type config, config|noreplace or config|missingok, in list order, joined by line breaks and ended by one -
+   is the text of the model's list, the one C08_conffiles_iff_declared and C08_conffiles_text_roundtrip speak about *)
+Theorem C08_conffiles_source_is_the_model : forall cs,
+  src_deb_conffiles_translated && src_ipk_conffiles_translated = true /\
+  src_deb_conffiles cs = conffiles_text (conffiles_model cs) /\ src_ipk_conffiles cs = conffiles_text (conffiles_model cs).
+Proof. intros cs. exact (conj list_fns_translated (conj (src_deb_conffiles_is_model cs) (src_ipk_conffiles_is_model cs))). Qed.
+Print Assumptions C08_conffiles_source_is_the_model.
